@@ -1,4 +1,5 @@
 import Sentinel.Breaker
+import Sentinel.BreakerSpec
 import SentinelProofs.Lemmas.Ring
 /-!
 # C03 — circuit breakers follow the Closed / Open / Half-Open state machine
@@ -302,8 +303,368 @@ theorem brSlot_blocked_iff (brs : List Breaker) (now : Nat) :
               simp only [hp, if_true]
               exact List.mem_cons_of_mem _ hy
 
+/-! ## refinement: the breaker IS the documented machine over exact windowed counts
+
+`breaker_refines_spec`: for every rule with a positive statistic interval, every sequence of requests, completions (fast or
+slow, ok or error) and rollbacks of any length with non-decreasing completion times, the model breaker (ring of counters,
+`reset_metric`, …) and the Spec breaker (`Sentinel/BreakerSpec.lean`: state, deadline, list of completions) answer every
+request alike and emit the same notifications. The relation between them is: same rule, state and deadline, and the ring
+is in the ring invariant w.r.t. the Spec's completion list. -/
+
+theorem BRule.bucketCount_pos (r : BRule) : 0 < r.bucketCount := by
+  unfold BRule.bucketCount
+  split
+  · exact Nat.one_pos
+  · rename_i h; omega
+
+theorem BRule.geo_interval (r : BRule) : r.geo.interval = r.ivl := by
+  unfold Geo.interval BRule.geo BRule.bucketCount
+  split
+  · simp
+  · rename_i h
+    have hdiv : r.ivl % r.buckets = 0 := by omega
+    have := Nat.mod_add_div r.ivl r.buckets
+    simp only []
+    omega
+
+theorem BRule.geo_L_pos (r : BRule) (h : 0 < r.ivl) : 0 < r.geo.L := by
+  have hi := r.geo_interval
+  unfold Geo.interval at hi
+  apply Nat.pos_of_ne_zero
+  intro h0
+  rw [h0] at hi
+  omega
+
+theorem length_eq_sum_ones {α : Type} (l : List α) : l.length = (l.map (fun _ => 1)).sum := by
+  induction l with
+  | nil => rfl
+  | cons x xs ih => simp [ih]; omega
+
+theorem length_filter_eq_sum {α : Type} (l : List α) (p : α → Bool) :
+    (l.filter p).length = (l.map (fun e => if p e then 1 else 0)).sum := by
+  induction l with
+  | nil => rfl
+  | cons x xs ih =>
+    by_cases h : p x = true
+    · simp [List.filter_cons, h, ih]; omega
+    · simp [List.filter_cons, h, ih]
+
+theorem filter_filter_of_imp {α : Type} (l : List α) (p q : α → Bool) (h : ∀ x ∈ l, q x = true → p x = true) :
+    (l.filter p).filter q = l.filter q := by
+  rw [List.filter_filter]
+  apply List.filter_congr
+  intro x hx
+  by_cases hq : q x = true
+  · simp [hq, h x hx hq]
+  · simp [hq]
+
+theorem slotAt_map {β : Type} (zero : β) (r : List (Slot β)) (f : Slot β → Slot β) (i : Nat) (hi : i < r.length) :
+    slotAt zero (r.map f) i = f (slotAt zero r i) := by
+  unfold slotAt
+  simp [List.getD, hi]
+
+/-- `reset_metric` right after a completion was recorded at `now`: the ring is in the invariant w.r.t. the history from
+which exactly the completions of the current window have been removed -/
+theorem ring_inv_reset (g : Geo) (hn : 0 < g.n) (hL : 0 < g.L) (ring : List (Slot BCounter))
+    (evs : List (Nat × Bool)) (now : Nat) (hit : Bool)
+    (hinv : RingInv bApp BCounter.zero g ring ((now, hit) :: evs) now) (hguard : g.interval < g.start now) :
+    RingInv bApp BCounter.zero g
+      (ring.map (fun s => if validAt g now s.stamp then { s with val := BCounter.zero } else s))
+      (((now, hit) :: evs).filter (fun e => !(decide (g.start now - g.interval + g.L ≤ g.start e.1) && decide (g.start e.1 ≤ g.start now))))
+      now := by
+  have hlen := hinv.len
+  have hsl : ∀ i, i < g.n → slotAt BCounter.zero (ring.map (fun s => if validAt g now s.stamp then { s with val := BCounter.zero } else s)) i
+      = (if validAt g now (slotAt BCounter.zero ring i).stamp then { (slotAt BCounter.zero ring i) with val := BCounter.zero } else slotAt BCounter.zero ring i) := by
+    intro i hi
+    rw [slotAt_map _ _ _ _ (by rw [hlen]; exact hi)]
+  have hstamp : ∀ i, i < g.n → (slotAt BCounter.zero (ring.map (fun s => if validAt g now s.stamp then { s with val := BCounter.zero } else s)) i).stamp
+      = (slotAt BCounter.zero ring i).stamp := by
+    intro i hi
+    rw [hsl i hi]
+    split <;> rfl
+  refine ⟨by simp [hlen], ?_, ?_, ?_, ?_⟩
+  · intro i hi hne
+    rw [hstamp i hi] at hne ⊢
+    exact hinv.slot i hi hne
+  · intro i hi
+    rw [hstamp i hi, hsl i hi]
+    have hv := validAt_iff_inWin_after_write bApp BCounter.zero g hn hL ring evs now hit hinv hguard i hi
+    by_cases h0 : (slotAt BCounter.zero ring i).stamp = 0
+    · have hval := hinv.val i hi
+      simp only [h0, if_true] at hval ⊢
+      split
+      · rfl
+      · exact hval
+    · simp only [h0, if_false]
+      have hval := hinv.val i hi
+      simp only [h0, if_false] at hval
+      by_cases hvalid : validAt g now (slotAt BCounter.zero ring i).stamp = true
+      · simp only [hvalid, if_true]
+        symm
+        apply bucketVal_no_events
+        intro e he hc
+        simp only [List.mem_filter, Bool.not_eq_true', Bool.and_eq_false_iff, decide_eq_false_iff_not] at he
+        rw [hv] at hvalid
+        have hw := (inWin_iff' g g.interval now _).mp hvalid
+        rw [hc] at he
+        omega
+      · simp only [hvalid, Bool.false_eq_true, if_false]
+        rw [hval]
+        unfold bucketVal
+        congr 1
+        symm
+        apply filter_filter_of_imp
+        intro e _ hq
+        simp only [decide_eq_true_eq] at hq
+        simp only [Bool.not_eq_true', Bool.and_eq_false_iff, decide_eq_false_iff_not]
+        rw [hv] at hvalid
+        have hnw : ¬ ((¬ (now > (slotAt BCounter.zero ring i).stamp ∧ now - (slotAt BCounter.zero ring i).stamp > g.interval)) ∧
+            g.start now - g.interval + g.L ≤ (slotAt BCounter.zero ring i).stamp ∧ (slotAt BCounter.zero ring i).stamp ≤ g.start now) := by
+          intro h; exact hvalid ((inWin_iff' g g.interval now _).mpr h)
+        have hs := hinv.slot i hi h0
+        have hnowL := g.lt_start_add hL now
+        have hnowhi := g.start_le now
+        rw [hq]
+        by_cases h1 : g.start now - g.interval + g.L ≤ (slotAt BCounter.zero ring i).stamp
+        · right
+          intro h2
+          apply hnw
+          refine ⟨?_, h1, h2⟩
+          intro ⟨_, hd⟩
+          omega
+        · left; exact h1
+  · intro e he
+    have he' := (List.mem_filter.mp he).1
+    have := hinv.newest e he'
+    refine ⟨this.1, ?_⟩
+    rw [hstamp _ (g.idx_lt hn _)]
+    exact this.2
+  · intro e he
+    exact hinv.times e (List.mem_filter.mp he).1
+
+/-- the relation between the model breaker and the Spec breaker -/
+structure BRel (b : Breaker) (s : SBreaker) (tl : Nat) : Prop where
+  rule : b.rule = s.rule
+  state : b.state = s.state
+  retry : b.nextRetry = s.deadline
+  inv : RingInv bApp BCounter.zero b.rule.geo b.ring s.hist tl
+
+/-- a fresh breaker and a fresh Spec breaker of the same rule are related -/
+theorem BRel.new (r : BRule) (t0 : Nat) : BRel (Breaker.new r) { rule := r } t0 :=
+  ⟨rfl, rfl, rfl, ring_inv_init _ _ _ _⟩
+
+/-- operation sequences with non-decreasing completion times, past the first statistic interval -/
+def OpsOk (g : Geo) : Nat → List BOp → Prop
+  | _, [] => True
+  | tl, .enter _ :: rest => OpsOk g tl rest
+  | tl, .rollback _ :: rest => OpsOk g tl rest
+  | tl, .complete now _ _ :: rest => tl ≤ now ∧ g.interval < g.start now ∧ OpsOk g now rest
+
+theorem enter_refines (b : Breaker) (s : SBreaker) (tl now : Nat) (h : BRel b s tl) :
+    (b.stepOp (.enter now)).2 = (s.stepOp (.enter now)).2 ∧ BRel (b.stepOp (.enter now)).1 (s.stepOp (.enter now)).1 tl := by
+  obtain ⟨hr, hs, ht, hinv⟩ := h
+  obtain ⟨rule, state, nextRetry, ring⟩ := b
+  obtain ⟨srule, sstate, sdeadline, shist⟩ := s
+  simp only at hr hs ht hinv
+  subst hr hs ht
+  simp only [Breaker.stepOp, SBreaker.stepOp, Breaker.tryPass, SBreaker.enter]
+  cases state with
+  | closed => exact ⟨by first | rfl | trivial, ⟨rfl, rfl, rfl, hinv⟩⟩
+  | halfOpen => exact ⟨by first | rfl | trivial, ⟨rfl, rfl, rfl, hinv⟩⟩
+  | opn =>
+    simp only []
+    by_cases hd : now ≥ nextRetry
+    · simp only [hd, if_true]
+      exact ⟨by first | rfl | trivial, ⟨rfl, rfl, rfl, hinv⟩⟩
+    · simp only [hd, if_false]
+      exact ⟨by first | rfl | trivial, ⟨rfl, rfl, rfl, hinv⟩⟩
+
+theorem rollback_refines (b : Breaker) (s : SBreaker) (tl : Nat) (bl : Bool) (h : BRel b s tl) :
+    (b.stepOp (.rollback bl)).2 = (s.stepOp (.rollback bl)).2 ∧ BRel (b.stepOp (.rollback bl)).1 (s.stepOp (.rollback bl)).1 tl := by
+  obtain ⟨hr, hs, ht, hinv⟩ := h
+  obtain ⟨rule, state, nextRetry, ring⟩ := b
+  obtain ⟨srule, sstate, sdeadline, shist⟩ := s
+  simp only at hr hs ht hinv
+  subst hr hs ht
+  simp only [Breaker.stepOp, SBreaker.stepOp, Breaker.rollback, SBreaker.rollback]
+  by_cases hc : (bl && state == BState.halfOpen) = true
+  · simp only [hc, if_true]
+    exact ⟨by first | rfl | trivial, ⟨rfl, rfl, rfl, hinv⟩⟩
+  · simp only [hc]
+    exact ⟨by first | rfl | trivial, ⟨rfl, rfl, rfl, hinv⟩⟩
+
+/-- the Spec's window counts are what the breaker's `totals` read right after recording -/
+theorem counts_eq_totals (r : BRule) (hpos : 0 < r.ivl) (ring : List (Slot BCounter)) (evs : List (Nat × Bool)) (now : Nat) (hit : Bool)
+    (hinv : RingInv bApp BCounter.zero r.geo ring ((now, hit) :: evs) now) (hguard : r.geo.interval < r.geo.start now)
+    (b : Breaker) (hb : b.rule = r) (hring : b.ring = ring) (s : SBreaker) (hsr : s.rule = r) (hh : s.hist = (now, hit) :: evs) :
+    b.totals now = s.counts now := by
+  unfold Breaker.totals SBreaker.counts
+  rw [hb, hring, totals_eq_window r.geo r.bucketCount_pos (r.geo_L_pos hpos) ring evs now hit hinv hguard, hh]
+  have hI := r.geo_interval
+  have hw : ∀ e : Nat × Bool, s.inWindow now e.1
+      = (decide (r.geo.start now - r.geo.interval + r.geo.L ≤ r.geo.start e.1) && decide (r.geo.start e.1 ≤ r.geo.start now)) := by
+    intro e
+    unfold SBreaker.inWindow
+    rw [hsr, hI]
+    rfl
+  have hfil : ((now, hit) :: evs).filter (fun e => s.inWindow now e.1)
+      = ((now, hit) :: evs).filter (fun e => decide (r.geo.start now - r.geo.interval + r.geo.L ≤ r.geo.start e.1) && decide (r.geo.start e.1 ≤ r.geo.start now)) := by
+    apply List.filter_congr
+    intro e _
+    exact hw e
+  simp only []
+  rw [hfil]
+  apply Prod.ext
+  · simp only []
+    rw [length_filter_eq_sum]
+  · simp only []
+    rw [length_eq_sum_ones]
+
+theorem thresholdMet_eq_trip (b : Breaker) (s : SBreaker) (h : b.rule = s.rule) (target total : Nat) :
+    b.thresholdMet target total = s.trip target total := by
+  unfold Breaker.thresholdMet SBreaker.trip
+  rw [h]
+  cases s.rule.strategy <;> rfl
+
+theorem complete_refines (b : Breaker) (s : SBreaker) (tl now rt : Nat) (err : Bool) (h : BRel b s tl)
+    (hpos : 0 < b.rule.ivl) (htl : tl ≤ now) (hguard : b.rule.geo.interval < b.rule.geo.start now) :
+    (b.stepOp (.complete now rt err)).2 = (s.stepOp (.complete now rt err)).2 ∧
+      BRel (b.stepOp (.complete now rt err)).1 (s.stepOp (.complete now rt err)).1 now := by
+  obtain ⟨hr, hs, ht, hinv⟩ := h
+  obtain ⟨rule, state, nextRetry, ring⟩ := b
+  obtain ⟨srule, sstate, sdeadline, shist⟩ := s
+  simp only at hr hs ht hinv hpos hguard
+  subst hr hs ht
+  have hn := rule.bucketCount_pos
+  have hL := rule.geo_L_pos hpos
+  have hstart : 0 < rule.geo.start now := by omega
+  have hhitS : SBreaker.hit ⟨rule, state, nextRetry, shist⟩ rt err = Breaker.counts ⟨rule, state, nextRetry, ring⟩ rt err := rfl
+  generalize hhit : Breaker.counts ⟨rule, state, nextRetry, ring⟩ rt err = hit at hhitS
+  obtain ⟨ring', hw, hinv'⟩ := ring_inv_write bApp BCounter.zero rule.geo hn hL ring shist tl now hit hinv htl hstart
+  have hrec : (Breaker.recorded ⟨rule, state, nextRetry, ring⟩ now rt err) = some ring' := by
+    rw [recorded_is_ringWrite, hhit]
+    exact hw
+  have htot : Breaker.totals ⟨rule, state, nextRetry, ring'⟩ now
+      = SBreaker.counts ⟨rule, state, nextRetry, (now, hit) :: shist⟩ now :=
+    counts_eq_totals rule hpos ring' shist now hit hinv' hguard
+      ⟨rule, state, nextRetry, ring'⟩ rfl rfl ⟨rule, state, nextRetry, (now, hit) :: shist⟩ rfl rfl
+  have htrip := thresholdMet_eq_trip ⟨rule, state, nextRetry, ring'⟩ ⟨rule, state, nextRetry, (now, hit) :: shist⟩ rfl
+  simp only [Breaker.stepOp, SBreaker.stepOp, Breaker.onComplete, SBreaker.complete, hrec, hhit, hhitS, htot, htrip]
+  cases hc : SBreaker.counts ⟨rule, state, nextRetry, (now, hit) :: shist⟩ now with
+  | mk target total =>
+    simp only []
+    cases state with
+    | opn => exact ⟨by first | rfl | trivial, ⟨rfl, rfl, rfl, hinv'⟩⟩
+    | halfOpen =>
+      simp only []
+      cases hit with
+      | true =>
+        simp only [if_true]
+        exact ⟨by first | rfl | trivial, ⟨rfl, rfl, rfl, hinv'⟩⟩
+      | false =>
+        simp only [Bool.false_eq_true, if_false]
+        refine ⟨by first | rfl | trivial, ⟨rfl, rfl, rfl, ?_⟩⟩
+        have hreset := ring_inv_reset rule.geo hn hL ring' shist now false hinv' hguard
+        simp only [Breaker.resetMetric]
+        have hI := rule.geo_interval
+        have hfil : ((now, false) :: shist).filter (fun e => !(SBreaker.inWindow ⟨rule, BState.halfOpen, nextRetry, (now, false) :: shist⟩ now e.1))
+            = ((now, false) :: shist).filter (fun e => !(decide (rule.geo.start now - rule.geo.interval + rule.geo.L ≤ rule.geo.start e.1) && decide (rule.geo.start e.1 ≤ rule.geo.start now))) := by
+          apply List.filter_congr
+          intro e _
+          unfold SBreaker.inWindow
+          simp only []
+          rw [hI]
+          rfl
+        rw [hfil]
+        exact hreset
+    | closed =>
+      simp only []
+      cases htr : SBreaker.trip ⟨rule, BState.closed, nextRetry, (now, hit) :: shist⟩ target total with
+      | mk trip snap =>
+        simp only []
+        cases trip with
+        | true => exact ⟨by first | rfl | trivial, ⟨rfl, rfl, rfl, hinv'⟩⟩
+        | false => exact ⟨by first | rfl | trivial, ⟨rfl, rfl, rfl, hinv'⟩⟩
+
+/-- **Refinement.** Every operation sequence gives the same answers and notifications on the breaker and on the Spec machine. -/
+theorem breaker_refines_spec (b : Breaker) (s : SBreaker) (tl : Nat) (ops : List BOp) (h : BRel b s tl)
+    (hpos : 0 < b.rule.ivl) (hops : OpsOk b.rule.geo tl ops) :
+    (b.run ops).2 = (s.run ops).2 ∧ ∃ tl', BRel (b.run ops).1 (s.run ops).1 tl' := by
+  induction ops generalizing b s tl with
+  | nil => exact ⟨rfl, tl, h⟩
+  | cons o os ih =>
+    have hrule : ∀ (b' : Breaker) (s' : SBreaker) tl', BRel b' s' tl' → b'.rule = b.rule → OpsOk b.rule.geo tl' os →
+        (b'.run os).2 = (s'.run os).2 ∧ ∃ t, BRel (b'.run os).1 (s'.run os).1 t := by
+      intro b' s' tl' h' hr' ho'
+      exact ih b' s' tl' h' (by rw [hr']; exact hpos) (by rw [hr']; exact ho')
+    cases o with
+    | enter now =>
+      obtain ⟨h1, h2⟩ := enter_refines b s tl now h
+      have hr' : (b.stepOp (.enter now)).1.rule = b.rule := by
+        simp only [Breaker.stepOp, Breaker.tryPass]; cases b.state <;> simp only [] <;> (try split) <;> rfl
+      obtain ⟨h3, h4⟩ := hrule _ _ tl h2 hr' hops
+      simp only [Breaker.run, SBreaker.run]
+      exact ⟨by rw [h1, h3], h4⟩
+    | rollback bl =>
+      obtain ⟨h1, h2⟩ := rollback_refines b s tl bl h
+      have hr' : (b.stepOp (.rollback bl)).1.rule = b.rule := by
+        simp only [Breaker.stepOp, Breaker.rollback]; split <;> rfl
+      obtain ⟨h3, h4⟩ := hrule _ _ tl h2 hr' hops
+      simp only [Breaker.run, SBreaker.run]
+      exact ⟨by rw [h1, h3], h4⟩
+    | complete now rt err =>
+      obtain ⟨htl, hg, hrest⟩ := hops
+      obtain ⟨h1, h2⟩ := complete_refines b s tl now rt err h hpos htl hg
+      have hr' : (b.stepOp (.complete now rt err)).1.rule = b.rule := by
+        rw [h2.rule]
+        simp only [SBreaker.stepOp, SBreaker.complete]
+        have := h.rule
+        cases s.state <;> simp only [] <;> (repeat' split) <;> simp_all
+      obtain ⟨h3, h4⟩ := hrule _ _ now h2 hr' hrest
+      simp only [Breaker.run, SBreaker.run]
+      exact ⟨by rw [h1, h3], h4⟩
+
+/-- closing forgets only what could never be read again: a completion older than the window at the time of closing is
+outside every later window, so "the statistics are emptied" and "the completions of the current window are dropped" are
+the same for every later count -/
+theorem counts_forget_old (s : SBreaker) (hpos : 0 < s.rule.ivl) (now later : Nat) (hl : now ≤ later) (e : Nat × Bool)
+    (hold : s.inWindow now e.1 = false) (hpast : e.1 ≤ now) : s.inWindow later e.1 = false := by
+  unfold SBreaker.inWindow at *
+  simp only [Bool.and_eq_false_iff, decide_eq_false_iff_not] at hold ⊢
+  have hL := s.rule.geo_L_pos hpos
+  have h1 : s.rule.geo.start e.1 ≤ s.rule.geo.start now := s.rule.geo.start_mono hpast
+  have h2 : s.rule.geo.start now ≤ s.rule.geo.start later := s.rule.geo.start_mono hl
+  have e1 : e.1 - e.1 % s.rule.geo.L = s.rule.geo.start e.1 := rfl
+  have e2 : now - now % s.rule.geo.L = s.rule.geo.start now := rfl
+  have e3 : later - later % s.rule.geo.L = s.rule.geo.start later := rfl
+  rw [e1, e2] at hold
+  rw [e1, e3]
+  rcases hold with h | h
+  · left; omega
+  · omega
+
+/-- **From creation on**: a breaker built for any rule with a positive statistic interval answers every operation sequence
+(any length, any strategy, any thresholds and bucket counts, non-decreasing completion times) exactly as the documented
+machine does on the exact windowed counts of its completion history -/
+theorem fresh_breaker_refines_spec (r : BRule) (hpos : 0 < r.ivl) (ops : List BOp) (hops : OpsOk r.geo 0 ops) :
+    ((Breaker.new r).run ops).2 = (({ rule := r } : SBreaker).run ops).2 :=
+  (breaker_refines_spec (Breaker.new r) { rule := r } 0 ops (BRel.new r 0) hpos hops).1
+
 /-! ## non-vacuity -/
 example : ((Breaker.new ⟨"b", .errorCount, 1000, 1, 1000, 2, 50, F64.ofNat 1⟩).onComplete 1700000000100 10 true).1.state = .opn := by
   decide
+
+
+/-- a two-bucket error-count rule; trip, reject, probe that fails, probe that closes, a stale error that no longer counts -/
+def exRule : BRule := ⟨"b", .errorCount, 1000, 1, 2000, 2, 50, F64.ofNat 2⟩
+def exOps : List BOp :=
+  [.enter 1700000000000, .complete 1700000000100 10 true, .complete 1700000000200 10 true, .enter 1700000000300,
+   .enter 1700000001300, .complete 1700000001400 10 true, .enter 1700000002500, .rollback true, .enter 1700000002600,
+   .complete 1700000002700 10 false, .complete 1700000002800 10 true, .enter 1700000002900]
+example : OpsOk exRule.geo 0 exOps := by
+  refine ⟨by decide, by decide, by decide, by decide, by decide, by decide, by decide, by decide, by decide, by decide, trivial⟩
+example : ((Breaker.new exRule).run exOps).2.map (·.1) =
+    [some true, none, none, some false, some true, none, some true, none, some true, none, none, some true] := by decide
+example : (({ rule := exRule } : SBreaker).run exOps).2 = ((Breaker.new exRule).run exOps).2 := by decide
 
 end Sentinel
